@@ -70,7 +70,7 @@ Proof. exact prop_draw_ok_iff. Qed.
 
 (* the acceptors the correspondence check evaluates on the implementation's outputs are sound
    (accepted => property); the iterator's is also complete for the model (every pivot's output is
-   accepted); for accept_draw only soundness is proved *)
+   accepted), and so is accept_draw's (C11_accept_draw_complete below) *)
 Theorem C11_accept_iter_sound : forall n s lo hi obs,
   0 < n -> s < n -> lo <= hi -> hi <= u16_max ->
   accept_iter n s lo hi obs = true -> Permutation obs (spec_ports n s lo hi) /\ NoDup obs.
@@ -247,6 +247,62 @@ Example C11_ex_connect_many :
   some_pivot_gives 5 3 65520 65535 [65523] 65529 3 = false.
 Proof. repeat split; vm_compute; reflexivity. Qed.
 
+(* ---- deepening round 3 ---- *)
+
+(* the number of runs of the loop for one shard in the refiller's first round, which the driver used
+   to compute in OCaml: per_shard per node, minus one for every node whose first (plain-port)
+   connection landed on this shard *)
+Theorem C11_connect_runs : forall per firsts s, (1 <= per)%nat ->
+  runs_for_shard per firsts s = (per * List.length firsts - count_occ N.eq_dec firsts s)%nat.
+Proof. exact runs_for_shard_spec. Qed.
+
+(* the interval the driver demands for the number of shard-aware connections of a shard is, for the
+   pivots 0,1,2,.. it happens to run the model with AND THEREFORE (C11_connect_many_count) for every
+   pivots, [min(runs, free ports when held and busy ports are unavailable),
+            min(runs, free ports when only the held ports are unavailable)];
+   it is never empty and never allows more than per_shard * nodes connections *)
+Theorem C11_connect_count_bounds : forall n lo hi per firsts pre busy s,
+  0 < n -> s < n -> lo <= hi -> hi <= u16_max ->
+  shard_count_bounds n lo hi per firsts pre busy s =
+    (Nat.min (runs_for_shard per firsts s) (List.length (free_ports n s lo hi (pre ++ busy))),
+     Nat.min (runs_for_shard per firsts s) (List.length (free_ports n s lo hi pre))) /\
+  (fst (shard_count_bounds n lo hi per firsts pre busy s) <= snd (shard_count_bounds n lo hi per firsts pre busy s))%nat /\
+  (snd (shard_count_bounds n lo hi per firsts pre busy s) <= per * List.length firsts)%nat.
+Proof. exact shard_count_bounds_spec. Qed.
+
+(* LIST level: what a whole list accepted by accept_conns guarantees beyond the per-connection
+   sentence: connections from pairwise distinct ports (as simultaneously open connections of one
+   client address are) that serve shard s are at most as many as the shard has ports in [lo,hi] that
+   the harness does not hold; a starved shard has none (no distinctness needed) *)
+Theorem C11_connect_accept_list : forall n lo hi pre obs s,
+  lo <= hi + 1 ->
+  accept_conns n lo hi pre obs = true -> NoDup (map fst obs) ->
+  (List.length (filter (fun c => N.eqb (snd c) s) obs) <= List.length (free_ports n s lo hi pre))%nat.
+Proof. exact accept_conns_list. Qed.
+
+Theorem C11_connect_accept_list_starved : forall n lo hi pre obs s,
+  accept_conns n lo hi pre obs = true -> starvedb n s lo hi pre = true ->
+  filter (fun c => N.eqb (snd c) s) obs = [].
+Proof. exact accept_conns_starved_none. Qed.
+
+(* accept_draw is complete for the model as well (so far only soundness was proved): every index the
+   code can draw (idx < count; 0 when there is no port) gives an accepted observation *)
+Theorem C11_accept_draw_complete : forall n s lo hi idx,
+  (idx < Nat.max 1 (List.length (ports_for_shard n s lo hi)))%nat ->
+  accept_draw n s lo hi (draw_port n s lo hi idx) = true.
+Proof. exact accept_draw_complete. Qed.
+
+Example C11_ex_connect_runs :
+  (* 2 nodes, per_shard 2, first connections on shards 1 and 3 *)
+  runs_for_shard 2 [1; 3] 1 = 3%nat /\ runs_for_shard 2 [1; 3] 0 = 4%nat /\
+  runs_for_shard 1 [3; 3] 3 = 0%nat /\ runs_for_shard 1 [] 3 = 0%nat /\
+  (* shard 3 of 5 in 65520..65535: ports 65523 65528 65533; 65523 held, 65528 busy from outside *)
+  shard_count_bounds 5 65520 65535 2 [1; 3] [65523] [65528] 3 = (1, 2)%nat /\
+  shard_count_bounds 5 65520 65535 1 [3] [65523] [] 3 = (0, 0)%nat /\
+  shard_count_bounds 5 65520 65535 2 [0; 0] [] [] 3 = (3, 3)%nat /\
+  shard_count_bounds 5 65520 65535 1 [0] [65523; 65528; 65533] [] 3 = (0, 0)%nat.
+Proof. repeat split; vm_compute; reflexivity. Qed.
+
 (* non-vacuity of the connect-loop theorems: ports 65523, 65528, 65533 serve shard 3 of 5 *)
 Definition ex_env (unavail : list N) (bad : list N) : N -> outcome :=
   fun q => if memb q unavail then AddrUnavailable else if memb q bad then OtherError 7 else Connected.
@@ -345,3 +401,8 @@ Print Assumptions C11_connect_accept_not_starved.
 Print Assumptions C11_connect_many_count.
 Print Assumptions C11_connect_many_In.
 Print Assumptions C11_connect_some_pivot.
+Print Assumptions C11_connect_runs.
+Print Assumptions C11_connect_count_bounds.
+Print Assumptions C11_connect_accept_list.
+Print Assumptions C11_connect_accept_list_starved.
+Print Assumptions C11_accept_draw_complete.
